@@ -1,4 +1,18 @@
 TEXT = {
+ 'C17': {
+  'text': 'PARTIAL proof. Decided by theorem + regenerated facts: (1) no function of package vm writes a package-level variable after init, '
+          'mutates a shared 256-bit constant (also through an alias) or takes its address; EnableEIP only ever acts on a deep copy of a table; '
+          'stacks are truncated before being pooled; opJump/opJumpi test the abort flag first (all extracted from the source on every run, closed '
+          'by decide +kernel); (2) c17_projection: for ANY number of instances and ANY schedule each instance ends in the state it reaches alone; '
+          '(3) after Cancel no jump is taken, so every open frame halts within |code|-pc+1 instructions through the ordinary halt path, whose '
+          'bookkeeping closure is proved over all event sequences (C07/C03). Search support on every run: 8 goroutines x 3 generated programs on '
+          'separate state databases compared with the sequential run (results and full step traces), a goroutine cancelling a looping execution '
+          '(top level and nested) at a random moment; thorough tier runs this under the Go race detector.',
+  'note': 'What cannot be exhibited by a model and is therefore NOT proved: absence of data races in the Go memory-model sense, behaviour of '
+          'sync.Pool / atomic.Bool, concurrent map reads, the Aspect runtime pool of aspect-core. A shared write in a syntactic form the '
+          'extractor does not know would escape (1).',
+  'technique': 'Lean interleaving theorem + regenerated sharing facts (decide +kernel) + cancellation model; race detector as search support',
+ },
  'C01': {
   'text': 'Relational claim decided in three parts. (1) Regenerated facts closed by decide +kernel: every instruction table Frontier..Shanghai '
           'equals go-ethereum v1.12.0\'s outside 0xe0-0xe7 (execute/dynamic-gas/memory-size function names, constant gas, stack bounds), '
